@@ -462,6 +462,19 @@ func DriverMain(id, tier string) int {
 		}
 		for k, v := range st.Counters {
 			total.Counters[k] += v
+			// explicit-state searches run inside one body execution and report their own numbers
+			switch k {
+			case "+states":
+				total.Nodes += v
+			case "+transitions":
+				total.Edges += v
+			case "+evaluations":
+				total.Evals += v
+				fs.Evals += v
+			case "+nontrivial":
+				total.Nontrivial += v
+				fs.Nontrivial += v
+			}
 		}
 		for _, o := range st.Outcomes {
 			outcomes[o] = struct{}{}
